@@ -45,14 +45,16 @@ type c02Case struct {
 }
 
 type c02World struct {
-	reg *fakes.Registry
-	ids []primitives.MemberId
-	com []interfaces.CommitteeMember
-	wl  *leanhelix.WorkerLoop
-	env *ref.Env
+	height uint64
+	alt    []interfaces.CommitteeMember
+	reg    *fakes.Registry
+	ids    []primitives.MemberId
+	com    []interfaces.CommitteeMember
+	wl     *leanhelix.WorkerLoop
+	env    *ref.Env
 }
 
-func newC02World(ws []uint64) *c02World {
+func newC02World(ws []uint64, height uint64) *c02World {
 	w := &c02World{reg: fakes.NewRegistry()}
 	for i := 0; i < len(ws)+2; i++ {
 		id := sim.MemberName(i)
@@ -65,7 +67,23 @@ func newC02World(ws []uint64) *c02World {
 	for i, x := range ws {
 		w.com = append(w.com, interfaces.CommitteeMember{Id: w.ids[i], Weight: primitives.MemberWeight(x)})
 	}
-	mem := &fakes.Membership{Me: w.ids[0], Committee: func(primitives.BlockHeight) []interfaces.CommitteeMember { return w.com }}
+	// the committee depends on the height: at every other height the weights are reversed and member 0 is replaced by an
+	// outsider, so that a validator that looks up the committee of the wrong height is caught
+	w.height = height
+	n := len(ws)
+	for i := range ws {
+		id := w.ids[i]
+		if i == 0 {
+			id = w.ids[n]
+		}
+		w.alt = append(w.alt, interfaces.CommitteeMember{Id: id, Weight: primitives.MemberWeight(ws[n-1-i])})
+	}
+	mem := &fakes.Membership{Me: w.ids[0], Committee: func(h primitives.BlockHeight) []interfaces.CommitteeMember {
+		if uint64(h) == w.height {
+			return w.com
+		}
+		return w.alt
+	}}
 	cfg := &interfaces.Config{InstanceId: sim.Instance, Membership: mem, BlockUtils: fakes.NewBlockUtils("v"), KeyManager: &fakes.KeyManager{Reg: w.reg, Me: w.ids[0]},
 		Communication: &fakes.Communication{Send: func([]primitives.MemberId, *interfaces.ConsensusRawMessage) {}}, OverrideElectionTrigger: fakes.NewSched()}
 	st := state.NewState()
@@ -83,7 +101,7 @@ func runC02(c c02Case) (*ev.Violation, bool, bool) {
 	viol := func(kind, format string, a ...interface{}) *ev.Violation {
 		return &ev.Violation{Property: "C02", Kind: kind, Detail: fmt.Sprintf(format, a...), Replayer: "C02", Case: c}
 	}
-	w := newC02World(c.Weights)
+	w := newC02World(c.Weights, c.Height)
 	block := &fakes.Block{H: primitives.BlockHeight(c.Height), Ref: 7, ID: "the-block", Prev: "p", Valid: true}
 	prevBlock := &fakes.Block{H: primitives.BlockHeight(c.Height - 1), Ref: 6, ID: "p", Valid: true}
 	// previous proof
